@@ -516,3 +516,52 @@ Theorem C10_eliminate_source_example :
           ["a"; "s"; "z"]%string, [Some 0; Some 4]) /\
   (exists c', Circuit_eliminate_1to1_forks_src CircuitElimSrcExample.ex_c = Some c' /\ CInv c').
 Proof. exact CircuitElimSrcExample.eliminate_source_example. Qed.
+
+(** * 10. SOURCE tie of the pickle pair Circuit.__getstate__ / Circuit.__setstate__.  Gen/CircuitPickleSrc.v holds the two methods
+    translated statement by statement from the current text of circuit.py by translate/gen_circuit_pickle.py (fail-closed; vocabulary
+    Model/CircuitPickleSrcLib.v on top of Model/CircuitPrimsSrcLib.v): the state dict is a Python VALUE ([pyval]: the three list
+    comprehensions over self.nodes / self.lines / self.io_nodes, tuples of str / int, a dict display with the circuit's name as an
+    opaque value); __setstate__ runs on a NEW object whose graph state starts as [empty] (the state dict shares no object with the
+    pickled circuit), records the class each list attribute is created with ([cmeta]) and rebuilds nodes and lines through the
+    constructors that are themselves translated from the source (C09_prims_source_is_model: Node_init_src, Line_init_src).
+    The translated pair is the hand model on EVERY state: no invariant is needed, the only precondition is the representation
+    (indices and pin positions of a [circ] are naturals); raising cases (None) included; the rebuilt circuit is compared with [ceq]
+    and the container classes are those Circuit.__init__ creates ([init_meta]: nodes / lines IndexList, io_nodes GrowingList). *)
+From Coq Require Import ZArith.
+From KV Require Import Model.CircuitPickleSrcLib Gen.CircuitPrimsSrc Gen.CircuitPickleSrc Proofs.CircuitPickleSrcProofs.
+Theorem C10_getstate_source_is_model : forall c nm, Circuit_getstate_src c nm = option_map (enc_pstate nm) (getstate c).
+Proof. exact getstate_src_eq. Qed.
+Theorem C10_setstate_source_is_model : forall nm s,
+  omceq (Circuit_setstate_src (enc_pstate nm s)) (option_map (pair (init_meta nm)) (setstate s)).
+Proof. exact setstate_src_eq. Qed.
+Theorem C10_pickle_source_is_model : forall c nm,
+  omceq (match Circuit_getstate_src c nm with Some v => Circuit_setstate_src v | None => None end)
+        (option_map (pair (init_meta nm)) (pickle_roundtrip c)).
+Proof. exact pickle_source_is_model. Qed.
+(* concrete instance (six nodes, five lines, two ports): the state dict, the rebuilt circuit with its container classes, a line removal
+   on the rebuilt circuit, and two state dicts on which __setstate__ raises *)
+Theorem C10_pickle_source_example :
+  CInv CircuitElimSrcExample.ex_c /\ io_ok_b CircuitElimSrcExample.ex_c = true /\
+  Circuit_getstate_src CircuitElimSrcExample.ex_c (PStr "top") =
+    Some (PDict [("name", PStr "top");
+                 ("nodes", PList [PTuple [PStr "a"; PStr "__fork__"]; PTuple [PStr "f"; PStr "__fork__"];
+                                  PTuple [PStr "s"; PStr "__fork__"]; PTuple [PStr "g"; PStr "AND2"];
+                                  PTuple [PStr "z"; PStr "__fork__"]; PTuple [PStr "r"; PStr "BUF1"]]);
+                 ("lines", PList [PTuple [PInt 0; PInt 0; PInt 1; PInt 0]; PTuple [PInt 1; PInt 0; PInt 3; PInt 0];
+                                  PTuple [PInt 2; PInt 0; PInt 3; PInt 1]; PTuple [PInt 3; PInt 0; PInt 4; PInt 0];
+                                  PTuple [PInt 4; PInt 0; PInt 5; PInt 0]]);
+                 ("io_nodes", PList [PInt 0; PInt 4])]%string) /\
+  option_map (fun p => (fst p, pk_summary (snd p))) (pickle_roundtrip_src CircuitElimSrcExample.ex_c (PStr "top")) =
+    Some (init_meta (PStr "top"),
+          ([("a", "__fork__", 0); ("f", "__fork__", 1); ("s", "__fork__", 2); ("g", "AND2", 3); ("z", "__fork__", 4);
+            ("r", "BUF1", 5)],
+           [(0, Some 0, 0, Some 1, 0); (1, Some 1, 0, Some 3, 0); (2, Some 2, 0, Some 3, 1); (3, Some 3, 0, Some 4, 0);
+            (4, Some 4, 0, Some 5, 0)],
+           [Some 0; Some 4], ["g"; "r"], ["a"; "f"; "s"; "z"]))%string /\
+  match pickle_roundtrip_src CircuitElimSrcExample.ex_c (PStr "top") with
+  | Some (_, c') => option_map (fun c => map (fun l => (l, l_index (lst c l))) (lines c)) (Line_remove_src c' 0)
+  | None => None
+  end = Some [(4, 0); (1, 1); (2, 2); (3, 3)] /\
+  Circuit_setstate_src (enc_pstate PNone ([("a", "__fork__")], [(0, 0, 1, 0)], []))%string = None /\
+  Circuit_setstate_src (enc_pstate PNone ([("a", "__fork__"); ("a", "__fork__")], [], []))%string = None.
+Proof. exact pickle_source_example. Qed.
